@@ -16,26 +16,11 @@
 import Upnp.Proto
 import Upnp.Model.C03Parse
 import Upnp.Spec.C03
+import Upnp.Spec.C04
 namespace Upnp.C03.Wire
 open Upnp Upnp.Proto Upnp.C03 PyDict
 
 abbrev S := String
-
-structure Look where
-  known : Bool
-  st : List S
-  adv : List S
-  sh : Option (List (S × S))
-  ah : Option (List (S × S))
-deriving DecidableEq, Repr
-
-structure Cb where
-  isAsync : Bool
-  udn : S
-  ty : S
-  source : Source
-  comb : List (S × S)
-deriving DecidableEq, Repr
 
 structure DevFull where
   udn : S
@@ -50,33 +35,16 @@ structure SnapFull where
   devs : List DevFull
 deriving DecidableEq, Repr
 
-/-- everything observed around one event (implementation side or model side) -/
+/-- everything observed around one event on the implementation side -/
 structure StepObs where
   target : Option S × Option S := (none, none)
-  pre : Option Look := none
-  cbs : List Cb := []
-  post : Option Look := none
-  snap : SnapFull := ⟨none, []⟩
-deriving Repr
+  pre : Option (Look S) := none
+  cbs : List (Cb S) := []
+  post : Option (Look S) := none
 
 /-! ### model side -/
 
 def leS (a b : S) : Bool := !(b < a)
-
-def hdrPairs (h : Hdrs S) : List (S × S) := h.map (·.2)
-
-def lookOf (s : Tracker S) (u ty : Option S) : Look :=
-  match u.bind (get? s.devices) with
-  | none => ⟨false, [], [], none, none⟩
-  | some d => ⟨true, keys d.search, keys d.adv,
-      (ty.bind (get? d.search)).map hdrPairs, (ty.bind (get? d.adv)).map hdrPairs⟩
-
-def cbsOf (n : Option (Notif S)) : List Cb :=
-  match n with
-  | none => []
-  | some n =>
-    let comb := hdrPairs (combined "_source" n.dev n.ty)
-    [⟨false, n.udn, n.ty, n.source, comb⟩, ⟨true, n.udn, n.ty, n.source, comb⟩]
 
 def snapFullOf (s : Tracker S) : SnapFull :=
   ⟨s.next, s.devices.map fun p => ⟨p.1, p.2.validTo, p.2.lastSeen, p.2.locs, location leS p.2⟩⟩
@@ -106,8 +74,11 @@ def pairList (tbl : Array S) (t : String) : Option (List (S × S)) :=
     | [a, b] => do pure (← strAt tbl a, ← strAt tbl b)
     | _ => none
 
-def optPairs (tbl : Array S) (t : String) : Option (Option (List (S × S))) :=
-  if t = "!" then some none else (pairList tbl t).map some
+/-- observed header items (spelling, value) read into the abstract-map form -/
+def hdrsOf (l : List (S × S)) : Hdrs S := l.map fun p => (Parse.lower p.1, p)
+
+def optPairs (tbl : Array S) (t : String) : Option (Option (Hdrs S)) :=
+  if t = "!" then some none else (pairList tbl t).map fun l => some (hdrsOf l)
 
 def locList (tbl : Array S) (t : String) : Option (List (S × Int)) :=
   (listOf t).mapM fun x =>
@@ -124,17 +95,17 @@ def parseSource (t : String) : Option Source :=
   | "advertisement_update" => some .advUpdate
   | _ => none
 
-def parseLook (tbl : Array S) (toks : List String) : Option ((Option S × Option S) × Look) :=
+def parseLook (tbl : Array S) (toks : List String) : Option ((Option S × Option S) × Look S) :=
   match toks with
   | [u, ty, known, st, at_, sh, ah] => do
     pure ((← optStr tbl u, ← optStr tbl ty),
           ⟨known == "1", ← strList tbl st, ← strList tbl at_, ← optPairs tbl sh, ← optPairs tbl ah⟩)
   | _ => none
 
-def parseCb (tbl : Array S) (toks : List String) : Option Cb :=
+def parseCb (tbl : Array S) (toks : List String) : Option (Cb S) :=
   match toks with
   | [fl, u, ty, src, comb] => do
-    pure ⟨fl == "a", ← strAt tbl u, ← strAt tbl ty, ← parseSource src, ← pairList tbl comb⟩
+    pure ⟨fl == "a", ← strAt tbl u, ← strAt tbl ty, ← parseSource src, hdrsOf (← pairList tbl comb)⟩
   | _ => none
 
 def parseDevs (tbl : Array S) : Nat → List String → Option (List DevFull)
@@ -161,7 +132,7 @@ structure St where
   notif : Option (Notif S) := none       -- model's notification for the current event
   cur : StepObs := {}                    -- implementation's observations around the current event
   trace3 : List (Ev S × Snap S) := []    -- reversed: (event, implementation's device map after it)
-  steps4 : List (Ev S × Snap S × StepObs) := []  -- reversed: (event, map before, observations)
+  steps4 : List (Ev S × Snap S × C04.Obs S) := []  -- reversed: (event, map before, observations)
   lastSnap : Snap S := []
   corrOk : Bool := true
   notes : List String := []
@@ -214,10 +185,11 @@ def stepLine (genCfg specCfg : Cfg) (st : St) (toks : List String) : St :=
      | some sn, some e =>
        let st := if snapFullOf st.tracker == sn then st
          else st.bad s!"snap differs at step {st.trace3.length}: impl {repr sn} model {repr (snapFullOf st.tracker)}"
-       let st := if cbsOf st.notif == st.cur.cbs then st
-         else st.bad s!"callbacks differ at step {st.trace3.length}: impl {repr st.cur.cbs} model {repr (cbsOf st.notif)}"
+       let st := if cbsOf "_source" st.notif == st.cur.cbs then st
+         else st.bad s!"callbacks differ at step {st.trace3.length}: impl {repr st.cur.cbs} model {repr (cbsOf "_source" st.notif)}"
        let snapJ := sn.devs.map devObsOf
-       let cur := { st.cur with snap := sn }
+       let noLook : Look S := ⟨false, [], [], none, none⟩
+       let cur : C04.Obs S := ⟨st.cur.target, st.cur.pre.getD noLook, st.cur.cbs, st.cur.post.getD noLook⟩
        { st with trace3 := (e, snapJ) :: st.trace3, steps4 := (e, st.lastSnap, cur) :: st.steps4,
                  lastSnap := snapJ, evJ := none }
      | _, _ => st.bad "bad snap line")
